@@ -41,12 +41,12 @@ ADDR_KINDS = ("var", "sum", "computed")
 _cache = {}
 
 
-def build(fmt, kind, sign, const, local=False, addr="var"):
-    key = (fmt, kind, sign, const, local, addr)
+def build(fmt, kind, sign, const, local=False, addr="var", percpu=False):
+    key = (fmt, kind, sign, const, local, addr, percpu)
     if key in _cache:
         return _cache[key]
     from ebpfcat.ebpf import EBPF, LocalVar
-    from ebpfcat.arraymap import ArrayMap
+    from ebpfcat.arraymap import ArrayMap, PerCPUArrayMap
 
     def program(self):
         self.owners.add(8)
@@ -76,7 +76,7 @@ def build(fmt, kind, sign, const, local=False, addr="var"):
         ns["v"] = LocalVar(fmt)
         ns["other"] = LocalVar("I")
     else:
-        m = ArrayMap()
+        m = PerCPUArrayMap() if percpu else ArrayMap()     # per-CPU: the instances of one CPU share the CPU's copy
         ns["m"] = m
         ns["v"] = m.globalVar(fmt)
         ns["other"] = m.globalVar("I")
@@ -225,7 +225,13 @@ def run(ctx):
         const = 7
         info = build(fmt, kind, sign, const, local=True)
         bad = shape(info, fmt, True)
-        ctx.require(bad is None, "local variable: emitted code is not one XADD on the variable", {"fmt": fmt, "amount": kind, "local": True}, bad, "shape")
+        ctx.require(bad is None, "local variable: emitted code is not one XADD on the variable", {"fmt": fmt, "amount": kind, "sign": sign, "const": const, "local": True}, bad, "shape")
+        # variable of a per-CPU array map (the instances running on one CPU share that CPU's copy): same statement shape
+        info = build(fmt, kind, sign, const, percpu=True)
+        bad = shape(info, fmt, False)
+        ctx.case({"fmt": fmt, "amount": kind, "sign": sign, "percpu": True}, kind=f"{fmt}-{kind}-percpu")
+        ctx.require(bad is None, "per-CPU map variable: emitted code is not 'private computation; one XADD on the variable'",
+                    {"fmt": fmt, "amount": kind, "sign": sign, "const": const, "percpu": True}, bad, "shape")
     model = ctx.drive(DRIVER, [{k: c[k] for k in ("bits", "sched", "cell", "threads")} for c in cases], "xadd schedules")
     if model is not None:
         for c, i, m in zip(cases, impl, model):
@@ -233,6 +239,13 @@ def run(ctx):
 
 
 def replay(ctx, case):
+    if "stmt" not in case:          # a shape case: re-generate the statement and look at it again
+        local = bool(case.get("local"))
+        info = build(case["fmt"], case["amount"], case.get("sign", 1), case.get("const", 7), local=local, addr=case.get("addr", "var"),
+                     percpu=bool(case.get("percpu")))
+        bad = shape(info, case["fmt"], local)
+        ctx.require(bad is None, "emitted code is not 'private computation; one XADD on the variable'", case, bad, "shape")
+        return {"shape": bad or "ok"}
     st = case["stmt"]
     info = build(st["fmt"], st["amount"], st["sign"], st["const"], addr=st.get("addr", "var"))
     bits = case["bits"]
